@@ -185,6 +185,11 @@ impl Watcher {
             return Err(AddAppointmentFailure::SubscriptionExpired(expiry));
         }
 
+        // The locator cache is locked from here until the appointment has been stored (or handed to the Responder), so
+        // this cannot interleave with the processing of a block by the Watcher nor with another request for the same
+        // appointment (otherwise the same breach could be handled twice, or not at all, or the same data charged twice).
+        let locator_cache = self.locator_cache.lock().unwrap();
+
         let extended_appointment = ExtendedAppointment::new(
             appointment,
             user_id,
@@ -210,12 +215,7 @@ impl Watcher {
         // This will hang, the request will timeout but be accepted. However, the user will not be handed the receipt.
         // This could be fixed adding a thread to take care of storing while the main thread returns the receipt.
         // Not fixing this atm since working with threads that call self.method is surprisingly non-trivial.
-        match self
-            .locator_cache
-            .lock()
-            .unwrap()
-            .get(&extended_appointment.locator())
-        {
+        match locator_cache.get(&extended_appointment.locator()) {
             // Appointments that were triggered in blocks held in the cache
             Some(dispute_tx) => {
                 self.store_triggered_appointment(uuid, &extended_appointment, user_id, dispute_tx);
@@ -225,6 +225,7 @@ impl Watcher {
                 self.store_appointment(uuid, &extended_appointment);
             }
         };
+        drop(locator_cache);
 
         let mut receipt = AppointmentReceipt::new(
             extended_appointment.user_signature,
@@ -557,10 +558,10 @@ impl chain::Listen for Watcher {
             .map(|(_, tx)| (Locator::new(tx.compute_txid()), (*tx).clone()))
             .collect();
 
-        self.locator_cache
-            .lock()
-            .unwrap()
-            .update(*header, &locator_tx_map);
+        // The cache stays locked until the breaches of this block have been handled, so appointments cannot be added
+        // half-way (see `add_appointment`).
+        let mut locator_cache = self.locator_cache.lock().unwrap();
+        locator_cache.update(*header, &locator_tx_map);
 
         // Get the breaches found in this block, handle them, and delete invalid ones.
         if let Some(invalid_breaches) = self.handle_breaches(self.get_breaches(locator_tx_map)) {
@@ -570,6 +571,7 @@ impl chain::Listen for Watcher {
         // Update last known block
         self.last_known_block_height
             .store(height, Ordering::Release);
+        drop(locator_cache);
     }
 
     /// Handle reorgs in the [Watcher].
